@@ -88,6 +88,14 @@ def run(rep, tier, seed):
             fan = {"rk": "list", "key": None, "index": None, "value": None, "cond": None, "label": None}
             add({"rparts": [("prim", "t"), fan], "cond": cond, "cast": None}, {"t": nodes, "n": 1}, rng.choice(["raw", "Data"]))
             continue
+        if rng.random() < 0.08:
+            # conditions whose arguments are data paths into the same document (every callable, every argument position)
+            from harness.props import c17
+            rr = {"rparts": gen.path_recipe(rng, doc, maxlen=2), "cond": c17.cross_cond(rng, doc), "cast": None}
+            if rng.random() < 0.6:
+                doc, rr = c17.directed(rng, doc, rr)      # a node at which resolving the argument decides the verdict
+            add(rr, doc, "raw")
+            continue
         add(ruledrv.rule_recipe(rng, doc), doc, rng.choice(["raw", "Data"]))
     ruledrv.judge(rep, events, recipes, ruledrv.default_key)
     from harness import repotrace
